@@ -1,0 +1,57 @@
+//go:build verif
+
+package rpc
+
+import "sort"
+
+// VerifTables is a snapshot of a Conn's tables, for the verification
+// harness under /verif (build tag verif).  It only reads, under c.mu.
+type VerifTables struct {
+	Exports      map[uint32]uint32 // export id -> wire references
+	Imports      map[uint32]int    // import id -> wire references
+	Answers      []uint32          // answer ids in the table
+	Questions    []uint32          // question ids in the table
+	Embargoes    int
+	SenderLocked bool // the sender lock is held
+	Closed       bool // shutdown has started
+}
+
+// VerifSnapshot returns the current tables of c.
+func VerifSnapshot(c *Conn) VerifTables {
+	c.mu.Lock()
+	defer c.mu.Unlock()
+	t := VerifTables{Exports: map[uint32]uint32{}, Imports: map[uint32]int{}}
+	for id, e := range c.exports {
+		if e != nil {
+			t.Exports[uint32(id)] = e.wireRefs
+		}
+	}
+	for id, e := range c.imports {
+		if e != nil {
+			t.Imports[uint32(id)] = e.wireRefs
+		}
+	}
+	for id, a := range c.answers {
+		if a != nil {
+			t.Answers = append(t.Answers, uint32(id))
+		}
+	}
+	sort.Slice(t.Answers, func(i, j int) bool { return t.Answers[i] < t.Answers[j] })
+	for id, q := range c.questions {
+		if q != nil {
+			t.Questions = append(t.Questions, uint32(id))
+		}
+	}
+	for _, e := range c.embargoes {
+		if e != nil {
+			t.Embargoes++
+		}
+	}
+	t.SenderLocked = c.sendCond != nil
+	select {
+	case <-c.bgctx.Done():
+		t.Closed = true
+	default:
+	}
+	return t
+}
